@@ -578,6 +578,7 @@ fn gen_listener(rng: &mut Rng) -> crate::net::NetScenario {
         clients,
         stop_at_ns: None,
         stop_before: false,
+        yields_before_stop: 0,
         cap_ns: (2 * timeout_s + 30) * 1_000_000_000,
     }
 }
